@@ -82,6 +82,10 @@ func (e *Engine) storeRoot(addr ssa.Value, fn *ssa.Function, prefix string) (str
 		return e.storeRoot(x.X, fn, prefix)
 	case *ssa.IndexAddr:
 		if sl, ok := x.X.Type().Underlying().(*types.Slice); ok {
+			if _, fresh := x.X.(*ssa.MakeSlice); fresh {
+				// writes into a slice allocated by this very function touch only new memory
+				return "EF:" + ks.typeKey(sl.Elem()), sl.Elem()
+			}
 			return "E:" + ks.typeKey(sl.Elem()), sl.Elem()
 		}
 		return e.storeRoot(x.X, fn, prefix)
